@@ -2,6 +2,7 @@
 // Random histories of up to 40 C-API calls on an MSSM handle (and THDM handles), every call mirrored on a C++ object;
 // observed: return values (bit-for-bit), error codes vs exception classes, escaping exceptions, writes beyond the given
 // buffer length (exact-size heap buffers under ASan), NULL frees.  The sanitizer build supplies the memory oracle.
+#include <cstdint>
 #include "vh.hpp"
 #include "gm2calc/MSSMNoFV_onshell.hpp"
 #include "gm2calc/THDM.hpp"
@@ -217,7 +218,10 @@ static void thdm_history(vh::Rng& r) {
    static const int types[] = {1, 2, 3, 4, 5, 6, 0, 7, 0, 7};
    const int ty = hostile_pt ? types[r.range(10)] : 1 + r.range(6);
    auto val = [&](double lo, double hi, bool lg) { return hostile_pt && r.chance(0.3) ? hostile(r) : (lg ? r.LU(lo, hi) : r.U(lo, hi)); };
-   gm2calc_THDM* h = nullptr; gm2calc_error e; std::string exp; gm2calc::THDM* pm = nullptr;
+   // the caller's handle variable is not always zero before the call (re-used after a free, or never initialised): "if an error occurs, the model pointer will be set to 0"
+   static gm2calc_THDM* const STALE = reinterpret_cast<gm2calc_THDM*>(static_cast<uintptr_t>(0x10));   // never dereferenced by the harness
+   const bool stale_handle = r.chance(0.5);
+   gm2calc_THDM* h = stale_handle ? STALE : nullptr; gm2calc_error e; std::string exp; gm2calc::THDM* pm = nullptr;
    std::stringstream ss; std::streambuf* old = std::cerr.rdbuf(ss.rdbuf());
    const bool mass = r.chance(0.6);
    if (mass) {
@@ -244,7 +248,9 @@ static void thdm_history(vh::Rng& r) {
    }
    out->cell(std::string("THDM|error-code|") + exp + (ty < 1 || ty > 6 ? "|enum-out-of-range" : ""), exp == code_name(e) ? 0 : 1);
    if (exp != code_name(e)) failure("C17:THDM:error-code", std::string("constructor: C returns ") + code_name(e) + ", C++ gives " + exp);
-   if ((e == gm2calc_NoError) != (h != nullptr)) failure("C17:THDM:handle-vs-code", std::string("handle ") + (h ? "non-null" : "null") + " with code " + code_name(e));
+   out->cell(std::string("THDM|handle-vs-code|") + (stale_handle ? "handle-variable-non-zero-before-the-call" : "handle-variable-zero-before-the-call") + (e == gm2calc_NoError ? "|success" : "|error"), ((e == gm2calc_NoError) != (h != nullptr) || h == STALE) ? 1 : 0);
+   if ((e == gm2calc_NoError) != (h != nullptr) || h == STALE) failure("C17:THDM:handle-vs-code", std::string("handle ") + (h == STALE ? "left at the caller's stale value" : (h ? "non-null" : "null")) + " with code " + code_name(e));
+   if (e != gm2calc_NoError || h == STALE) h = nullptr;   // (never free what the library did not hand out)
    if (h && pm) {
       struct TF { const char* n; double (*c)(const gm2calc_THDM*); std::function<double(const gm2calc::THDM&)> cpp; };
       static const std::vector<TF> tf = {{"thdm_calculate_amu_1loop", gm2calc_thdm_calculate_amu_1loop, [](const gm2calc::THDM& m) { return gm2calc::calculate_amu_1loop(m); }},
